@@ -1,6 +1,7 @@
 import GMGProofs.Props.C10h
 import GMGProofs.Props.C10f
 import GMGProofs.Props.C09c
+import GMGProofs.Props.C10i
 /-!
 # Totality and translation invariance for every hierarchy `setup()` builds
 
@@ -143,6 +144,58 @@ theorem concrete_excycle_translate_built (H : Hier K) (nr nt : Nat) (maxLevels :
   exact C10f.concrete_excycle_translate_bc H L h2 k nu1 nu2 fgs u f f1 w g g1 h0 hbc (fun _ => odd) ht1 h01
     (Or.inl ⟨by omega, by omega⟩) M hM ht hu hf hf1 hAw hAw1 m m' hm hr hr1 hm' hr' hr1'
 
+/-- **end to end, implicitly extrapolated**: inputs → hierarchy → fixed point of the extrapolated cycle (either level-0 smoother).
+    The hypotheses of `C10i.concrete_exact_fixed_setup`, plus the level-1 right-hand side `f1` for which the injection of `u` solves
+    the level-1 system (what the implicit extrapolation presupposes) -/
+theorem concrete_exact_fixed_extrap_setup (E : Cache.Env K) (grids : List (Cache.GridData K)) (cc cg : Bool) (tiny : K → Bool)
+    (nr nt : Nat) (maxLevels : Int) (L : Nat) (crit : Nat → Nat → Bool)
+    (hsel : chooseLevels nr nt maxLevels = .ok L) (hlen : grids.length = L)
+    (hchain : List.IsChain C03c.Nested grids)
+    (hshape : ∀ l (hl : l < grids.length), (grids[l]).g.nr = coarsenR l nr ∧ (grids[l]).g.nt = coarsenT l nt ∧
+      (grids[l]).g.nc = Split.autoNc (crit l) (coarsenR l nr))
+    (hin : ∀ G ∈ grids, C10i.InputsOK E G)
+    (k : Kind) (nu1 nu2 : Nat) (fgs : Bool) (u f f1 : Array K) (ht1 : tiny 1 = false)
+    (M : SparseLU.CSR K)
+    (hM : DirectCode.assemble C04c.genTables (lvl (Build.hier E grids true cc cg tiny C04c.genTables) (L - 1)).op = some M)
+    (ht : ∀ r, r < M.rows → tiny (SparseLU.den ((SparseLU.factorRows M).2.getD r []) r) = false)
+    (hu : u.size = nr * nt)
+    (hsol : ∀ i j, i < nr → j < nt →
+      take (lvl (Build.hier E grids true cc cg tiny C04c.genTables) 0).op (SmootherCode.fld nt f) (SmootherCode.fld nt u) i j = 0)
+    (hsol1 : ∀ i j, i < coarsenR 1 nr → j < coarsenT 1 nt →
+      take (lvl (Build.hier E grids true cc cg tiny C04c.genTables) 1).op (SmootherCode.fld (coarsenT 1 nt) f1)
+        (Interp.inject (SmootherCode.fld nt u)) i j = 0)
+    (m : Mem (Option (Array K))) (hm : m (0, Buf.sol) = some u) (hr : m (0, Buf.rhs) = some f)
+    (hr1 : m (1, Buf.rhs) = some f1) :
+    cycle (Build.hier E grids true cc cg tiny C04c.genTables) ⟨L, nu1, nu2⟩ k true fgs m (0, Buf.sol) = some u := by
+  have hL2 : 2 ≤ L := (chain_sizes hsel).1
+  obtain ⟨G0, Gs, rfl⟩ : ∃ G0 Gs, grids = G0 :: Gs := by
+    cases grids with
+    | nil => simp only [List.length_nil] at hlen; omega
+    | cons a b => exact ⟨a, b, rfl⟩
+  have hlev := C10i.hier_eq_fresh_levels E cc cg true G0 Gs hchain tiny C04c.genTables
+  have hl : ∀ l (hl : l < (G0 :: Gs).length), lvl (Build.hier E (G0 :: Gs) true cc cg tiny C04c.genTables) l
+      = ⟨Build.opOf E (G0 :: Gs)[l] true (Cache.fresh E (G0 :: Gs)[l] cc cg), (G0 :: Gs)[l].g.nc⟩ :=
+    fun l hl => Concrete15.lvl_map _ (G0 :: Gs) _ hlev l hl
+  have hb : C10h.BuiltBy (Build.hier E (G0 :: Gs) true cc cg tiny C04c.genTables) nr nt crit L := by
+    refine ⟨fun l h => ?_, fun l h => ?_, fun l h => ?_⟩
+    · rw [hl l (by omega)]; exact (hshape l (by omega)).1
+    · rw [hl l (by omega)]; exact (hshape l (by omega)).2.1
+    · rw [hl l (by omega)]; exact (hshape l (by omega)).2.2
+  have hdata : ∀ l, l + 1 < L → (lvl (Build.hier E (G0 :: Gs) true cc cg tiny C04c.genTables) l).op.bc = true ∧
+      Elliptic (lvl (Build.hier E (G0 :: Gs) true cc cg tiny C04c.genTables) l).op := by
+    intro l h
+    rw [hl l (by omega)]
+    exact ⟨rfl, C10i.opOf_elliptic E _ (hin _ (List.getElem_mem _)) true cc cg⟩
+  have hnr0 : (lvl (Build.hier E (G0 :: Gs) true cc cg tiny C04c.genTables) 0).op.nr = nr := hb.shapeR 0 (by omega)
+  have hnt0 : (lvl (Build.hier E (G0 :: Gs) true cc cg tiny C04c.genTables) 0).op.nt = nt := hb.shapeT 0 (by omega)
+  have hnr1 : (lvl (Build.hier E (G0 :: Gs) true cc cg tiny C04c.genTables) 1).op.nr = coarsenR 1 nr := hb.shapeR 1 (by omega)
+  have hnt1 : (lvl (Build.hier E (G0 :: Gs) true cc cg tiny C04c.genTables) 1).op.nt = coarsenT 1 nt := hb.shapeT 1 (by omega)
+  refine C10h.concrete_exact_fixed_extrap_built _ nr nt maxLevels L crit hsel hb hdata k nu1 nu2 fgs u f f1 ht1 M hM ht ?_ ?_ ?_
+    m hm hr hr1
+  · rw [hnr0, hnt0]; exact hu
+  · rw [hnr0, hnt0]; exact hsol
+  · rw [hnr1, hnt1, hnt0]; exact hsol1
+
 end Ordered
 
 /-! ## non-vacuity: the four-level hierarchy `C10h.exH` (33 × 64 → 17 × 32 → 9 × 16 → 5 × 8) built by the chain -/
@@ -201,5 +254,39 @@ example (fmg : Bool) (fk : Kind) (fi nu1 nu2 : Nat) (ex fgs : Bool) (m : Mem (Op
     give_start_eq_take_start_built exH C10g.genG rfl rfl rfl 33 64 (-1) 4 exCrit rfl exH_built ?_ fmg fk fi nu1 nu2 ex fgs m⟩
   intro l hl
   rcases (by omega : l = 0 ∨ l = 1 ∨ l = 2 ∨ l = 3) with rfl | rfl | rfl | rfl <;> exact fun h => absurd h (by decide)
+
+/-- the level-1 right-hand side that makes the injection of `C10i.exU` the level-1 solution -/
+def exF1 : Array ℚ := SmootherCode.ofField 5 8
+  (A (lvl C10i.exH 1).op (Interp.inject (SmootherCode.fld 16 C10i.exU)))
+
+/-- **`concrete_exact_fixed_extrap_setup` applies** on the hierarchy built from `C10i.exEnv` and the nested chain 9 × 16 → 5 × 8: all
+    hypotheses hold jointly, for a solution that is not zero, either level-0 smoother -/
+example (k : Kind) (nu1 nu2 : Nat) (fgs : Bool) (m : Mem (Option (Array ℚ)))
+    (hm : m (0, Buf.sol) = some C10i.exU) (hr : m (0, Buf.rhs) = some C10i.exF) (hr1 : m (1, Buf.rhs) = some exF1) :
+    cycle C10i.exH ⟨2, nu1, nu2⟩ k true fgs m (0, Buf.sol) = some C10i.exU := by
+  obtain ⟨M, hM⟩ := C04c.assemble_in_bounds
+    (Build.opOf C10i.exEnv C10i.exG1 true (Cache.fresh C10i.exEnv C10i.exG1 true true)) (by decide)
+  have ht : ∀ r, r < M.rows → C06c.exTiny (SparseLU.den ((SparseLU.factorRows M).2.getD r []) r) = false := by
+    intro r hr'
+    have h := C10i.ex_pivots
+    rw [hM] at h
+    simp only [Option.all_some, List.all_eq_true, List.mem_range, Bool.not_eq_true'] at h
+    exact h r hr'
+  refine concrete_exact_fixed_extrap_setup C10i.exEnv [C10i.exG0, C10i.exG1] true true C06c.exTiny 9 16 (-1) 2 C10i.exCrit rfl rfl
+    C10i.ex_chain C10i.ex_shape C10i.ex_in k nu1 nu2 fgs C10i.exU C10i.exF exF1 (by decide +kernel) M
+    (by rw [← hM]; exact congrArg _ C10i.exH_lvl1) ht ?_ ?_ ?_ m hm hr hr1
+  · simp [C10i.exU, SmootherCode.ofField]
+  · intro i j hi hj
+    rw [take_eq_sub_A]
+    show SmootherCode.fld 16 C10i.exF i j - _ = 0
+    unfold C10i.exF
+    rw [fld_ofField_grid 9 16 _ i j hi hj]
+    exact sub_self _
+  · intro i j hi hj
+    rw [take_eq_sub_A]
+    show SmootherCode.fld 8 exF1 i j - _ = 0
+    unfold exF1
+    rw [fld_ofField_grid 5 8 _ i j hi hj]
+    exact sub_self _
 
 end C10j
